@@ -60,10 +60,20 @@ def cases(tier, seed):
     # custom bases
     cb = [dict(name='2DPGA'), dict(name='3DPGA'), dict(p=2, basis=['e', 'e2', 'e1', 'e12']), dict(p=2, basis=['e', 'e1', 'e2', 'e21']),
           dict(p=3, basis=['e', 'e1', 'e2', 'e3', 'e12', 'e31', 'e23', 'e123'])]
-    for _ in range(6 if tier == 'quick' else 60):
-        d = rng.choice((2, 3, 3))
+    # every spelling of the pseudoscalar of a 3-D algebra (cyclic rotations / reversals have other inversion parities than descents)
+    import itertools as _it
+    for w in _it.permutations('123'):
+        cb.append(dict(p=3, basis=['e', 'e1', 'e2', 'e3', 'e12', 'e13', 'e23', 'e' + ''.join(w)]))
+    cb.append(dict(p=2, r=1, basis=['e', 'e0', 'e1', 'e2', 'e01', 'e20', 'e12', 'e120']))
+    for _ in range(14 if tier == 'quick' else 60):
+        d = rng.choice((2, 3, 3, 3))
         pqr = rng.choice(pat.pqr_all(d))
         cb.append(dict(p=pqr[0], q=pqr[1], r=pqr[2], basis=pat.random_basis(pqr, rng)))
+    for _ in range(3 if tier == 'quick' else 20):
+        pqr = rng.choice(pat.pqr_all(4))
+        cfg = dict(p=pqr[0], q=pqr[1], r=pqr[2], basis=pat.random_basis(pqr, rng))
+        for I in rng.sample(range(16), 5) + [15]:
+            out.append(dict(kind='hom-blades', cfg=cfg, I=I, Js=list(range(16)), custom=True))
     for cfg in cb:
         out.append(dict(kind='hom', cfg=cfg, custom=True) if cfg.get('name') != '3DPGA' else dict(kind='hom-blades', cfg=cfg, I=5, Js=list(range(16)), custom=True))
     # expr_as_matrix
